@@ -21,8 +21,10 @@ import traceback
 from . import tlc
 from .tlc import MachineryError, VERIF, WORK
 
-EVID = os.path.join(VERIF, "evidence")
-REPLAY = os.path.join(VERIF, "replay")
+# mutation canaries set VERIF_WORK so that they never touch the real evidence / replay directories
+_OUT = os.environ.get("VERIF_WORK") or VERIF
+EVID = os.path.join(_OUT, "evidence")
+REPLAY = os.path.join(_OUT, "replay")
 KF_FILE = os.path.join(VERIF, "known_findings.json")
 MAX_REPORT = 25          # VIOLATION lines printed per clause (all are counted)
 
